@@ -2475,8 +2475,12 @@ impl<'de> serde::de::Visitor<'de> for AnnotationStoreVisitor<'_> {
                     if let Some(substore_index) =
                         self.store.config.current_substore_path.iter().last()
                     {
-                        if let Ok(substore) = self.store.get_mut(*substore_index) {
-                            substore.id = Some(id);
+                        let handle = *substore_index;
+                        if let Ok(substore) = self.store.get_mut(handle) {
+                            substore.id = Some(id.clone());
+                            //(the substore was added before its file was read: the lookup by
+                            // identifier learns the identifier here)
+                            self.store.substore_idmap.insert(id, handle);
                         }
                     } else {
                         //normal situation (do not override the ID if this is a merge, first ID counts)
